@@ -154,7 +154,10 @@ def apply_fault(L, c, spec):
         if how == "delete":
             os.unlink(fp)
         elif how == "rmdir":
-            os.rmdir(fp)
+            try:
+                os.rmdir(fp)
+            except OSError:
+                pass        # a recorded "empty" directory that holds only excluded entries: nothing to lose
         else:
             st = os.lstat(fp)
             with open(fp, "r+b") as fh:
